@@ -2,8 +2,9 @@
    Statements only; proofs in Proofs/C08.v (codecs) and Proofs/C08_lines.v (lines, ids, alignment).
    The definitions are those of Model/C08.v, the same ones the correspondence evaluates on the
    numbers the implementation produced (harness/props/c08.py). *)
-From PV Require Import Lib.Base Lib.Round Model.C12 Model.C08 Proofs.C08 Proofs.C08_lines Proofs.C08_perf.
-From Coq Require Import QArith Qabs Sorting.Sorted Sorting.Permutation.
+From PV Require Import Lib.Base Lib.Round Model.C12 Model.C08 Model.C08_attrs Model.C08_sigs Model.C08_glue Gen.C08_Vocab
+  Proofs.C08 Proofs.C08_lines Proofs.C08_perf Proofs.C08_attrs Proofs.C08_sigs Proofs.C08_glue.
+From Coq Require Import QArith Qabs Sorting.Sorted Sorting.Permutation String.
 #[local] Open Scope Z_scope.
 
 (* O3 position: beat + offset written by the exporter decode to the written position, in every
@@ -241,4 +242,231 @@ Example pedal_nontrivial :
       (ped_roundtrip 1 1000000 [(67, 14 # 10, 90); (64, 12 # 10, 127); (1, 5 # 10, 3); (64, 14 # 10, 0);
                                 (64, 4 # 10, 64); (64, 9 # 10, 0)])
   = [(64, 0, 64); (64, 1000000, 127); (64, 1000000, 0); (67, 1000000, 90)].
+Proof. vm_compute. reflexivity. Qed.
+
+(* ------------------------------------------------------------------ *)
+(* O3 voices, staves, supported articulations, grace notes: the attribute list of a score note
+   line (Model/C08_attrs.v works on the TEXT of the tokens).  For every voice >= 0, every staff,
+   every list of articulations none of which is a mark of the importer ("s", staff*, v<digits>,
+   a leading digit, grace, leftOutTied, stac), every list of ornaments that are no marks and no
+   supported articulation, any fermata / fingerings / grace / diff_score_version / voice_overlap
+   marks: the importer reads the voice and the staff that were written, staccato exactly when
+   "staccato" was among the articulations, accent exactly when "accent" was, a grace note exactly
+   when the note was one (or the duration is 0), and never a tie mark *)
+Theorem attrs_roundtrip : forall a dn,
+  (forall v, a_voice a = Some v -> 0 <= v) ->
+  forallb neutral (a_arts a) = true -> forallb inert (a_orns a) = true ->
+  imp_attrs (exp_attrs a) dn =
+    mkLA (Some (a_voice a)) (a_staff a) (has "staccato" (a_arts a)) (has "accent" (a_arts a))
+         (a_grace a || (dn =? 0)) false.
+Proof. exact attrs_roundtrip_lemma. Qed.
+Print Assumptions attrs_roundtrip.
+
+(* the articulation / ornament names of the tree under test (Gen/C08_Vocab.v, reflected on every
+   run; complete finite domain, by computation): none is a mark of the importer ... *)
+Theorem vocabulary_neutral : forallb neutral art_vocab = true /\ forallb inert orn_vocab = true.
+Proof. exact vocab_neutral. Qed.
+Print Assumptions vocabulary_neutral.
+
+(* ... and of all of them exactly "staccato" reads back as staccato and "accent" as accent
+   (staccatissimo, strong-accent, soft-accent, detached-legato, stress ... do not) *)
+Theorem vocabulary_supported :
+  forallb (fun t => Bool.eqb (imp_stac [t]) (String.eqb t "staccato") &&
+                    Bool.eqb (imp_acc [t]) (String.eqb t "accent")) (art_vocab ++ orn_vocab)%list = true.
+Proof. exact vocab_supported_lemma. Qed.
+Print Assumptions vocabulary_supported.
+
+(* hence for every note whose articulations and ornaments are names of that vocabulary *)
+Theorem attrs_roundtrip_vocabulary : forall a dn,
+  (forall v, a_voice a = Some v -> 0 <= v) ->
+  incl (a_arts a) art_vocab -> incl (a_orns a) orn_vocab ->
+  imp_attrs (exp_attrs a) dn =
+    mkLA (Some (a_voice a)) (a_staff a) (has "staccato" (a_arts a)) (has "accent" (a_arts a))
+         (a_grace a || (dn =? 0)) false.
+Proof. exact attrs_roundtrip_vocab_lemma. Qed.
+Print Assumptions attrs_roundtrip_vocabulary.
+
+Example attrs_nontrivial :
+  (* voice 12 on staff 10, staccatissimo + accent + soft-accent, a vertical turn (starts with v),
+     a fermata, fingering 3, a grace note *)
+  let a := mkA (Some 12) (Some 10) ["staccatissimo"; "accent"; "soft-accent"]%string ["vertical-turn"%string]
+               true [3] true false false in
+  (exp_attrs a, imp_attrs (exp_attrs a) 1)
+  = (["v12"; "staff10"; "staccatissimo"; "accent"; "soft-accent"; "vertical-turn"; "fermata"; "fingering3"; "grace"]%string,
+     mkLA (Some (Some 12)) (Some 10) false true true false).
+Proof. vm_compute. reflexivity. Qed.
+
+(* a staff that was written is kept by add_staffs; a voice that was written is kept; the voice
+   given to notes written without one is above every voice that was read, and 1 if none was *)
+Theorem fill_staff_given : forall p s, s <> 0 -> fill_staff p (Some s) = s.
+Proof. exact fill_staff_given_lemma. Qed.
+Print Assumptions fill_staff_given.
+
+Theorem fill_voice_given : forall all v, fill_voice all (Some v) = v.
+Proof. exact fill_voice_given_lemma. Qed.
+Print Assumptions fill_voice_given.
+
+Theorem fill_voice_fresh : forall all x, In (Some x) all -> x < fill_voice all None.
+Proof. exact fill_voice_fresh_lemma. Qed.
+Print Assumptions fill_voice_fresh.
+
+Theorem fill_voice_none : forall all, (forall o, In o all -> o = None) -> fill_voice all None = 1.
+Proof. exact fill_voice_none_lemma. Qed.
+Print Assumptions fill_voice_none.
+
+(* ------------------------------------------------------------------ *)
+(* O3 measures at the same positions, signatures at the start of the bar where they were written.
+   Any measure table (pickup, changing denominators), any onsets: the bar time the importer
+   reconstructs for a measure that holds a note is the start of that measure ... *)
+Theorem measure_start_roundtrip : forall ms dpq origin ons m,
+  0 < dpq -> (forall m, In m ms -> 0 < m_den m) -> NoDup (map m_num ms) ->
+  (exists on, In on ons /\ find_meas ms on None = Some m) ->
+  exists b, bar_time (enc_all ms dpq origin ons) (m_num m) = Some b /\
+            (b == inject_Z (m_start m - origin) / inject_Z dpq)%Q.
+Proof. exact measure_start_roundtrip_lemma. Qed.
+Print Assumptions measure_start_roundtrip.
+
+(* ... so a signature written ANYWHERE in measure m (the exporter writes m's number) is put at the
+   start of measure m *)
+Theorem signature_at_barline : forall ms dpq origin ons t m,
+  0 < dpq -> (forall m, In m ms -> 0 < m_den m) -> NoDup (map m_num ms) ->
+  find_meas ms t None = Some m ->
+  (exists on, In on ons /\ find_meas ms on None = Some m) ->
+  exists n b, sig_meas ms t = Some n /\
+              bar_time (enc_all ms dpq origin ons) n = Some b /\
+              (b == inject_Z (m_start m - origin) / inject_Z dpq)%Q.
+Proof. exact signature_at_barline_lemma. Qed.
+Print Assumptions signature_at_barline.
+
+Example signature_at_barline_nontrivial :
+  (* 3/4 pickup of 2 divisions, then 6/8, then 2/2 (divisions 4); a key signature written at
+     division 16, in the middle of the third measure (number 2, starting at 14): loaded at the
+     start of that measure, 12 divisions = 3 quarters after the first note *)
+  let ms := [mkM 0 0 4; mkM 1 2 8; mkM 2 14 2] in
+  (sig_meas ms 16, match bar_time (enc_all ms 4 2 [5; 0; 17; 14; 9]) 2 with
+                   | Some b => Qeq_bool b (inject_Z (14 - 2) / 4) | None => false end)
+  = (Some 2, true).
+Proof. vm_compute. reflexivity. Qed.
+
+(* in divisions of the loaded part: a bar time on the division grid is placed exactly (the
+   snapping of bar times and the rounding change nothing), never before 0 *)
+Theorem place_on_grid : forall divs offset l bar b k o,
+  0 < divs -> bar_time l bar = Some b ->
+  (b == inject_Z k / inject_Z divs)%Q -> (offset == inject_Z o / inject_Z divs)%Q ->
+  place divs offset l bar = Z.max 0 (k - o).
+Proof. exact place_on_grid_lemma. Qed.
+Print Assumptions place_on_grid.
+
+(* a complete last measure (len divisions of the written part = num/den whole notes) gets its full
+   length in the divisions of the loaded part *)
+Theorem closing_barline_complete : forall divs dpq num den len K,
+  0 < dpq -> 0 < den -> len * den = num * 4 * dpq -> K * dpq = len * divs ->
+  closing_len divs num den = K.
+Proof. exact closing_complete_lemma. Qed.
+Print Assumptions closing_barline_complete.
+
+(* MatchFile.time_signatures / key_signatures: first row of every run of equal values.  A row is
+   kept exactly when its value differs from the value in force before it ... *)
+Theorem signature_rows_step : forall prev (l1 : list (@row (Z * Z))) x l2,
+  dedup_runs zz_eqb prev (l1 ++ x :: l2) =
+  (dedup_runs zz_eqb prev l1 ++
+   (if match last_val prev l1 with Some v => zz_eqb (r_val x) v | None => false end then [] else [x]) ++
+   dedup_runs zz_eqb (Some (r_val x)) l2)%list.
+Proof. exact (runs_step_lemma zz_eqb zz_eqb_eq). Qed.
+Print Assumptions signature_rows_step.
+
+(* ... the signature in force after any prefix of the rows is unchanged, no value is repeated,
+   nothing is invented or reordered, and rows without a repetition are all kept *)
+Theorem signature_rows_value_in_force : forall prev (l : list (@row (Z * Z))),
+  last_val prev (dedup_runs zz_eqb prev l) = last_val prev l.
+Proof. exact (runs_value_in_force_lemma zz_eqb zz_eqb_eq). Qed.
+Print Assumptions signature_rows_value_in_force.
+
+Theorem signature_rows_prefix : forall prev (l1 l2 : list (@row (Z * Z))),
+  dedup_runs zz_eqb prev (l1 ++ l2) =
+  (dedup_runs zz_eqb prev l1 ++ dedup_runs zz_eqb (last_val prev l1) l2)%list.
+Proof. exact (runs_app_lemma zz_eqb zz_eqb_eq). Qed.
+Print Assumptions signature_rows_prefix.
+
+Theorem signature_rows_no_repeat : forall prev (l : list (@row (Z * Z))),
+  alternating prev (dedup_runs zz_eqb prev l).
+Proof. exact (runs_no_repeat_lemma zz_eqb zz_eqb_eq). Qed.
+Print Assumptions signature_rows_no_repeat.
+
+Theorem signature_rows_subseq : forall prev (l : list (@row (Z * Z))),
+  subseq (dedup_runs zz_eqb prev l) l.
+Proof. exact (runs_subseq_lemma zz_eqb). Qed.
+Print Assumptions signature_rows_subseq.
+
+Theorem signature_rows_kept : forall prev (l : list (@row (Z * Z))),
+  alternating prev l -> dedup_runs zz_eqb prev l = l.
+Proof. exact (runs_id_lemma zz_eqb zz_eqb_eq). Qed.
+Print Assumptions signature_rows_kept.
+
+Example signature_rows_nontrivial :
+  (* 4/4, 4/4 restated, 3/4, 4/4 again (the first value returns), 4/4 restated: rows 1, 3, 4 *)
+  map (fun r : @row (Z * Z) => r_bar r)
+      (sig_rows zz_eqb [(0 # 1, 1, (4, 4)); (4 # 1, 2, (4, 4)); (8 # 1, 3, (3, 4)); (11 # 1, 4, (4, 4)); (15 # 1, 5, (4, 4))])
+  = [1; 3; 4].
+Proof. vm_compute. reflexivity. Qed.
+
+(* sort_snotes (stable, by measure, beat, offset): nothing lost or duplicated, sorted, the note the
+   importer takes the first onset from is the least one, a sorted file is left as it is *)
+Theorem sort_notes_permutation : forall l, Permutation l (sort_notes l).
+Proof. exact sort_notes_perm_lemma. Qed.
+Print Assumptions sort_notes_permutation.
+
+Theorem sort_notes_sorted : forall l, StronglySorted key_leP (sort_notes l).
+Proof. exact sort_notes_sorted_lemma. Qed.
+Print Assumptions sort_notes_sorted.
+
+Theorem sort_notes_head_min : forall l h r x, sort_notes l = h :: r -> In x l -> key_leP h x.
+Proof. exact sort_notes_head_min_lemma. Qed.
+Print Assumptions sort_notes_head_min.
+
+Theorem sort_notes_sorted_id : forall l, StronglySorted key_leP l -> sort_notes l = l.
+Proof. exact sort_notes_sorted_id_lemma. Qed.
+Print Assumptions sort_notes_sorted_id.
+
+(* ------------------------------------------------------------------ *)
+(* O1/O2 ids of performed notes: the id loaded is the id written ('n' in front unless it is there),
+   it starts with n, saving what was loaded again changes no id, ids of one kind stay distinct *)
+Theorem pid_leg_fixpoint : forall s, pid_leg s = fmt_pid s /\ pid_leg (pid_leg s) = pid_leg s.
+Proof. exact pid_leg_lemma. Qed.
+Print Assumptions pid_leg_fixpoint.
+
+Theorem pid_prefixed : forall s, starts "n" (fmt_pid s) = true.
+Proof. exact fmt_pid_prefixed_lemma. Qed.
+Print Assumptions pid_prefixed.
+
+Theorem pid_kept : forall s, starts "n" s = true -> fmt_pid s = s.
+Proof. exact fmt_pid_keeps_lemma. Qed.
+Print Assumptions pid_kept.
+
+Theorem pid_injective : forall a b, starts "n" a = starts "n" b -> fmt_pid a = fmt_pid b -> a = b.
+Proof. exact fmt_pid_inj_lemma. Qed.
+Print Assumptions pid_injective.
+
+(* the performance-time -> score-time map the exporter orders insertions with exists exactly when a
+   match entry pairs a performed note with a score note that has a duration; boundary of the known
+   finding C08-K1 (otherwise save_match raises) *)
+Theorem time_map_defined_iff : forall snotes pids al,
+  save_defined snotes pids al = true <->
+  exists s p, In (EMatch s p) al /\ zmem p pids = true /\ zlookup s snotes = Some true.
+Proof. exact save_defined_iff_lemma. Qed.
+Print Assumptions time_map_defined_iff.
+
+Theorem k1_boundary : forall snotes pids al,
+  (forall s p, In (EMatch s p) al -> zmem p pids = true -> zlookup s snotes <> Some true) ->
+  save_defined snotes pids al = false.
+Proof. exact k1_boundary_lemma. Qed.
+Print Assumptions k1_boundary.
+
+Example k1_nontrivial :
+  (* a deletion, an insertion, an ornament and a matched grace note (3): no map; with the match of
+     note 1 there is one *)
+  (save_defined [(1, true); (2, true); (3, false)] [10; 11; 12]
+                [EDeletion 1; EInsertion 10; EOrnament 2 11; EMatch 3 12],
+   save_defined [(1, true); (2, true); (3, false)] [10; 11; 12]
+                [EMatch 1 10; EInsertion 11; EMatch 3 12]) = (false, true).
 Proof. vm_compute. reflexivity. Qed.
